@@ -64,7 +64,7 @@ def compare(sc, m, res):
     # scenario, so that state carried inside the objects the filter used cannot reach it
     m_ref = FW.materialise(sc)
     assoc = association(sc, m_ref, grid)
-    inc = m['increments'] if kn.get('increments_given', True) else None
+    inc = m['increments_passed'] if kn.get('increments_given', True) else None
     scale = float(kn.get('error_scale', 1.0))
     sig = [float(s) * scale for s in kn['sigmas']]
     gp = None if kn.get('models_omitted') else FW.scaled_model_params(kn['gyro_model'],
